@@ -426,7 +426,7 @@ func runC10(env *Env) {
 		}
 		tok, clean := fileTok(env.Scratch, j.data)
 		defer clean()
-		ans, crashed, diag := rg.ch.Ask(fmt.Sprintf("%s %s %s %s", j.c.Consumer, tok, j.base.od, j.base.nd), 30*time.Second)
+		ans, crashed, diag := rg.ch.Ask(fmt.Sprintf("%s %s %s %s", j.c.Consumer, tok, j.base.od, j.base.nd), wvlib.Watchdog(30*time.Second))
 		cls := c10Oracle(env, j.c, ans, crashed, diag)
 		R.Count("outcome:"+j.c.Consumer+":"+cls, 1)
 		R.Count("kind:"+j.c.Kind+":"+j.c.Stream, 1)
